@@ -740,6 +740,42 @@ char* xs_strcat(char* d, const char* s) {
   on_mem_access((uintptr_t)d, dl + n, true, RA0);
   return strcat(d, s);
 }
+// formatted output into a caller buffer: the bytes are written inside libc, report them as a ranged store
+int xs_vsnprintf(char* buf, size_t n, const char* fmt, va_list ap) {
+  locale_read("vsnprintf", RA0);
+  int r = vsnprintf(buf, n, fmt, ap);
+  if (buf && n) on_mem_access((uintptr_t)buf, r < 0 ? 1 : ((size_t)r + 1 < n ? (size_t)r + 1 : n), true, RA0);
+  return r;
+}
+int xs_snprintf(char* buf, size_t n, const char* fmt, ...) {
+  locale_read("snprintf", RA0);
+  va_list ap;
+  va_start(ap, fmt);
+  int r = vsnprintf(buf, n, fmt, ap);
+  va_end(ap);
+  if (buf && n) on_mem_access((uintptr_t)buf, r < 0 ? 1 : ((size_t)r + 1 < n ? (size_t)r + 1 : n), true, RA0);
+  return r;
+}
+int xs_vsprintf(char* buf, const char* fmt, va_list ap) {
+  locale_read("vsprintf", RA0);
+  int r = vsprintf(buf, fmt, ap);
+  if (buf) on_mem_access((uintptr_t)buf, r < 0 ? 1 : (size_t)r + 1, true, RA0);
+  return r;
+}
+int xs_sprintf(char* buf, const char* fmt, ...) {
+  locale_read("sprintf", RA0);
+  va_list ap;
+  va_start(ap, fmt);
+  int r = vsprintf(buf, fmt, ap);
+  va_end(ap);
+  if (buf) on_mem_access((uintptr_t)buf, r < 0 ? 1 : (size_t)r + 1, true, RA0);
+  return r;
+}
+char* xs_fgets(char* buf, int n, FILE* f) {
+  char* r = fgets(buf, n, f);
+  if (r) on_mem_access((uintptr_t)buf, strnlen(buf, (size_t)n) + 1, true, RA0);
+  return r;
+}
 void xs_qsort(void* base, size_t n, size_t sz, int (*cmp)(const void*, const void*)) {
   if (base && n * sz) on_mem_access((uintptr_t)base, n * sz, true, RA0);
   qsort(base, n, sz, cmp);
